@@ -828,3 +828,38 @@ Lemma depth_smp_thread0 base : depth_smp base 0 = depth_serial base.
 Proof. reflexivity. Qed.
 Lemma depth_smp_worker_refuted : exists base th, depth_smp base th <> depth_serial base.
 Proof. exists 0, 1. vm_compute. discriminate. Qed.
+
+(* statements as they appear in Properties_C12.v *)
+Lemma order_independent (L V : Type) (eqb : L -> L -> bool) :
+  (forall a b, eqb a b = true <-> a = b) ->
+  forall (l l' : list (item L V)), Permutation l l' -> Forall wf l -> Pairwise indep l ->
+  forall s, seq_eq (run eqb l s) (run eqb l' s).
+Proof. intros H l l' HP Hw Hi s. apply run_perm; auto. Qed.
+
+Lemma component_items_independent (vs : list var) (t : nat) :
+  let items := map comp_item (flat_map (item_evaluates vs) (build_items (active_vars t vs))) in
+  Forall wfi items /\ Pairwise indepi items.
+Proof.
+  cbv zeta. split.
+  - apply Forall_map_wf. apply wf_comp.
+  - apply comp_items_pairwise. apply (items_cover_active_once vs t).
+Qed.
+
+Lemma bias_items_independent (c : cfg) (t : nat) :
+  Forall wfi (smp_bias_work c t) /\ Pairwise indepi (smp_bias_work c t).
+Proof.
+  unfold smp_bias_work. split.
+  - rewrite Forall_app. split; [apply Forall_map_wf; apply wf_bias|].
+    destruct (c_use_script c && negb (c_script_after c)); constructor; auto. apply wf_script.
+  - eapply Pairwise_perm; [intros a b; apply indep_sym|apply Permutation_app_comm|].
+    apply (bias_work_pairwise _ _ (c_script c)); [apply active_biases_NoDup|apply script_before_cases].
+Qed.
+
+Lemma serial_equals_parallel (c : cfg) (t : nat) (s : store)
+    (ntc ntb : nat) (asc asb : nat -> nat) (orc orb lc lb : list nat) :
+  step_error c t = false ->
+  Permutation orc (seq 0 (n_cvc_items c t)) -> Permutation orb (seq 0 (n_bias_items c t)) ->
+  (forall k, k < n_cvc_items c t -> asc k < ntc) -> (forall k, k < n_bias_items c t -> asb k < ntb) ->
+  Merge (deal ntc asc orc) lc -> Merge (deal ntb asb orb) lb ->
+  forall l, step_smp c t lc lb s l = step_serial c t s l.
+Proof. intros _. apply smp_threads_eq_serial. Qed.
